@@ -341,12 +341,9 @@ def zeros(
     samples = int(np.ceil(over_sample_rate * ntmp))
 
     # Generate actual samples, removing duplicates, nonzeros and excess
-    tmpsubs = (
-        np.ceil(
-            np.random.uniform(0, 1, (samples, data.ndims)) * np.array(data.shape),
-        ).astype(int)
-        - 1
-    )
+    tmpsubs = np.floor(
+        np.random.uniform(0, 1, (samples, data.ndims)) * np.array(data.shape),
+    ).astype(int)
 
     if not with_replacement:
         tmpsubs = np.unique(tmpsubs, axis=0)
@@ -385,13 +382,10 @@ def uniform(data: ttb.tensor, samples: int) -> sample_type:
     -------
         Subscripts of samples, values at those subscripts, and weight of samples.
     """
-    subs = (
-        np.ceil(
-            np.random.uniform(0, 1, (samples, data.ndims)) * np.array(data.shape),
-        ).astype(int)
-        - 1
-    )
-    vals = data[subs]
+    subs = np.floor(
+        np.random.uniform(0, 1, (samples, data.ndims)) * np.array(data.shape),
+    ).astype(int)
+    vals = np.reshape(data[subs], (samples,))
     wgts = (np.prod(data.shape) / samples) * np.ones((samples,))
     return subs, vals, wgts
 
@@ -413,11 +407,13 @@ def semistrat(data: ttb.sptensor, num_nonzeros: int, num_zeros: int) -> sample_t
     Subscripts, values, and weights of samples (Nonzeros then zeros).
     """
     [nonzero_subs, nonzero_vals] = nonzeros(data, num_nonzeros, with_replacement=True)
-    nonzero_weights = (data.nnz / num_nonzeros) * np.ones((num_nonzeros,))
+    nonzero_weights = np.ones((num_nonzeros,))
+    if num_nonzeros > 0:
+        nonzero_weights *= data.nnz / num_nonzeros
 
     # Uniformly sample unconfirmed zeros
-    zero_subs = np.ceil(
-        np.random.uniform(0, 1, (num_zeros, data.ndims)) * (np.array(data.shape) - 1),
+    zero_subs = np.floor(
+        np.random.uniform(0, 1, (num_zeros, data.ndims)) * np.array(data.shape),
     ).astype(int)
     zero_vals = np.zeros((num_zeros,))
     zero_weights = (np.prod(data.shape) / num_zeros) * np.ones((num_zeros,))
@@ -472,4 +468,4 @@ def stratified(
     all_subs = np.vstack((nonzero_subs, zero_subs))
     all_vals = np.concatenate((nonzero_vals, zero_vals))
     all_weights = np.concatenate((nonzero_weights, zero_weights))
-    return all_subs, all_vals.squeeze(), all_weights
+    return all_subs, all_vals, all_weights
